@@ -27,6 +27,13 @@ def run(pid, tier):
     try:
         from .model import Ctx
         ctx = Ctx(fresh=(tier == "thorough"))
+        ctx.tier = tier
+        if tier == "thorough":
+            # deeper small scopes (the evidence records them)
+            from .rules import stringx, buildeval
+            stringx.RMAX, stringx.LMAX = 21, 6
+            buildeval.EXTRA_REPRESENTATIVES = True
+            chk.analysed["scopes"] = {"decoder": "0..21 bytes left, limits none/0..6/2^62/2^64-1", "builder": "an additional representative per selection state (three functions)"}
         chk.analysed["facts"] = {"key": ctx.meta["key"], "repo": ctx.meta["repo"], "source_files": ctx.meta["files"],
                                  "extract_s": ctx.meta["extract_s"]}
         mod.run(ctx, chk)
